@@ -132,7 +132,7 @@ C20Viol(mm, m2, e) ==
   (IF \E i, j \in 1..Len(m2.tresp) : i # j /\ m2.tresp[i].rid = m2.tresp[j].rid /\ m2.tresp[i].to = m2.tresp[j].to THEN {"C20.TwoResponses"} ELSE {})
   \cup (IF op.o \in {"talk_respond", "talk_drop"} /\ ~Unres(e) /\ mm.running
         THEN LET tk == TalkOf(mm, op.tr)
-                 want == IF op.o = "talk_respond" THEN "616e73776572" ELSE "" IN
+                 want == IF op.o = "talk_respond" /\ ~Get(op, "empty", FALSE) THEN "616e73776572" ELSE "" IN
              IF Cardinality({i \in TalkResp(e) : obs.hin[i].rid = tk.rid /\ obs.hin[i].to = tk.from /\ obs.hin[i].addr = tk.src /\ obs.hin[i].body.resp = want}) = 1
                 /\ Cardinality(TalkResp(e)) = 1 THEN {} ELSE {"C20.NotAnsweredOnce"}
         ELSE IF TalkResp(e) # {} /\ mm.running THEN {"C20.SpuriousResponse"} ELSE {})
